@@ -48,7 +48,16 @@ control_connection::control_connection(net_context & net_context)
 
 void control_connection::connect(std::string_view hostname, std::uint16_t port)
 {
+    /* Start from a clean state: no bytes of the previous connection and no
+     * SSL layer (a connection is plain until the handshake is performed).
+     */
+    buffer_.clear();
     skip_linefeed_ = false;
+
+    if (socket_->has_ssl_support())
+    {
+        set_ssl(nullptr);
+    }
 
     boost::asio::ip::tcp::resolver resolver(socket_->get_executor());
     boost::system::error_code ec;
@@ -206,46 +215,7 @@ reply control_connection::recv()
      */
     if (code == 421)
     {
-        boost::system::error_code ec;
-
-        /* Shutdown the SSL layer. */
-        if (socket_->has_ssl_support())
-        {
-            socket_->ssl_shutdown(ec);
-
-            if (ec == boost::asio::error::eof)
-            {
-                /* Rationale:
-                 * http://stackoverflow.com/questions/25587403/boost-asio-ssl-async-shutdown-always-finishes-with-an-error
-                 */
-            }
-            else if (ec)
-            {
-                throw ftp_exception(ec, "Cannot close control connection");
-            }
-        }
-
-        /* Shutdown the TCP layer. */
-        socket_->shutdown(boost::asio::ip::tcp::socket::shutdown_both, ec);
-
-        if (ec == boost::asio::error::not_connected)
-        {
-            /* Ignore 'not_connected' error. We could get ENOTCONN if a server side
-             * has already closed the control connection. This suits us, just close
-             * the socket.
-             */
-        }
-        else if (ec)
-        {
-            throw ftp_exception(ec, "Cannot close control connection");
-        }
-
-        socket_->close(ec);
-
-        if (ec)
-        {
-            throw ftp_exception(ec, "Cannot close control connection");
-        }
+        disconnect();
     }
 
     return reply(code, status_string);
@@ -316,6 +286,11 @@ std::string control_connection::read_line()
 void control_connection::disconnect()
 {
     boost::system::error_code ec;
+    boost::system::error_code first_error;
+
+    /* The socket is always closed, whatever fails on the way: the first error
+     * is reported after that.
+     */
 
     /* Shutdown the SSL layer. */
     if (socket_->has_ssl_support())
@@ -330,7 +305,7 @@ void control_connection::disconnect()
         }
         else if (ec)
         {
-            throw ftp_exception(ec, "Cannot close control connection");
+            first_error = ec;
         }
     }
 
@@ -344,16 +319,21 @@ void control_connection::disconnect()
          * the socket.
          */
     }
-    else if (ec)
+    else if (ec && !first_error)
     {
-        throw ftp_exception(ec, "Cannot close control connection");
+        first_error = ec;
     }
 
     socket_->close(ec);
 
-    if (ec)
+    if (ec && !first_error)
     {
-        throw ftp_exception(ec, "Cannot close control connection");
+        first_error = ec;
+    }
+
+    if (first_error)
+    {
+        throw ftp_exception(first_error, "Cannot close control connection");
     }
 }
 
